@@ -484,6 +484,10 @@ func (c *Client) Addr() string {
 // Close terminates the client's connection and releases any associated resources.
 // It returns an error if the connection could not be closed.
 func (c *Client) Close() error {
+	if c.conn == nil {
+		// No connection: a previous (re)connection attempt failed.
+		return nil
+	}
 	return c.conn.Close()
 }
 
